@@ -76,6 +76,9 @@ func init() {
 			ruleReaderFrom(c, r, "")
 			ruleReopenState(c, r, "")
 			ruleApplyOps(c, r, "")
+			ruleReader2ChunkEOF(c, r, "")
+			ruleBlockSource(c, r, "")
+			ruleEOSTest(c, r, "")
 			ruleRingWriters(c, r, "")
 			ruleCheckEncoding(c, r, "")
 			ruleDictCapDecode(c, r, "")
@@ -118,6 +121,7 @@ func init() {
 			// (a maximum-length match into exactly that much free space included)
 			ruleDecoderBounds(c, r, "")
 			ruleEncAvail(c, r, "")
+			ruleClassicVerify(c, r, "")
 			ruleIO(c, r, c.Cone(nonNilFns(c.Func("lzma", "NewWriter"), c.Func("lzma", "WriterConfig.NewWriter"), c.Func("lzma", "Writer.Write"), c.Func("lzma", "Writer.Close"))...), "", true)
 		},
 	})
@@ -151,6 +155,8 @@ func init() {
 			ruleByteAtGuards(c, r, "")
 			ruleValidDictCap(c, r, "")
 			ruleLitInit(c, r, "")
+			ruleEOSTest(c, r, "")
+			ruleClassicVerify(c, r, "")
 			// "every stream the library writes": a nil result of Write/Close means the bytes were delivered
 			wcone := c.Cone(nonNilFns(c.Func("lzma", "Writer.Write"), c.Func("lzma", "Writer.Close"), c.Func("lzma", "WriterConfig.NewWriter"))...)
 			ruleIO(c, r, wcone, "", true)
